@@ -465,6 +465,48 @@ def block_independence():
     return n, bad
 
 
+def format_equivalence():
+    """E over the small discrete dimensions: one data block expressed as TZX turbo (0x11), as TZX pure tone (0x12) +
+    pulse sequence (0x13) + pure data (0x14), and as PZX PULS + DATA - for every used-bits count 1..8, two pause values
+    and three data lengths - gives the same edges and the same data-block index range through the real parsers."""
+    import skoolkit.tape as T
+    bad = []
+    n = 0
+    w = lambda v, k=2: list(v.to_bytes(k, 'little'))
+    for used in range(1, 9):
+        for pause in (0, 1000):
+            for data in ([0xA5], [0x0F, 0xF0, 0x81], [0x55] * 7):
+                n += 1
+                pilot, plen, s1, s2, z, o = 101, 2168, 667, 735, 500, 1100  # odd pilot count: the PZX DATA block below starts at the high level, like the TZX forms
+                t11 = [0x11] + w(plen) + w(s1) + w(s2) + w(z) + w(o) + w(pilot) + [used] + w(pause) + w(len(data), 3) + data
+                t14 = [0x12] + w(plen) + w(pilot) + [0x13, 2] + w(s1) + w(s2) + [0x14] + w(z) + w(o) + [used] + w(pause) + w(len(data), 3) + data
+                hdr = list(b'ZXTape!\x1a\x01\x14')
+                bits = (len(data) - 1) * 8 + used
+                puls = w(0x8000 + pilot) + w(plen) + w(s1) + w(s2)
+                pzx = list(b'PZXT') + w(2, 4) + [1, 0] + list(b'PULS') + w(len(puls), 4) + puls
+                body = w(0x80000000 + bits, 4) + w(0) + [2, 2] + w(z) + w(z) + w(o) + w(o) + data
+                pzx += list(b'DATA') + w(len(body), 4) + body
+                if pause:
+                    pzx += list(b'PAUS') + w(4, 4) + w(pause * 3500, 4)
+                try:
+                    res = []
+                    for tape in (T.parse_tzx(bytes(hdr + t11), timings=True), T.parse_tzx(bytes(hdr + t14), timings=True), T.parse_pzx(bytes(pzx))):
+                        blocks = [b for b in tape.blocks if b.timings]
+                        for b in blocks:
+                            b.keys = None
+                        e, ds = T.get_edges(blocks, 0, 0)
+                        res.append((list(e), [(d.start, d.end) for d in ds]))
+                except Exception as ex:
+                    bad.append((used, pause, len(data), 'exception', repr(ex)[:120]))
+                    continue
+                # a trailing pause adds no edge of its own in any of the three forms; compare up to the end of the data
+                k = res[0][1][-1][1] + 1 if res[0][1] else len(res[0][0])
+                for name, r in zip(('TZX 0x12+0x13+0x14', 'PZX PULS+DATA'), res[1:]):
+                    if r[1] != res[0][1] or r[0][:k] != res[0][0][:k]:
+                        bad.append((used, pause, len(data), 'TZX 0x11 vs ' + name, (len(res[0][0]), res[0][1]), (len(r[0]), r[1])))
+    return n, bad
+
+
 def flag_consistency():
     """E: for every flag byte, the same one-block tape read as TAP, as TZX 0x10 and as the PZX file written by
     write_pzx gives the same edges up to the end of the data (PZX adds its 945 T-state tail pulse after them)."""
@@ -568,6 +610,13 @@ def run(tier):
     if badb:
         rep.violation('C11/block-independence', 'the pulse train of a data block with bit pulses %s / %s changes when it follows a block with %s / %s' % (badb[0][1][0], badb[0][1][1], badb[0][0][0], badb[0][0][1]),
                       {'case': {'first_block_timings': [list(x) for x in badb[0][0]], 'second_block_timings': [list(x) for x in badb[0][1]]}})
+    ne, bade = format_equivalence()
+    rep.add_bulk(ne - len({b[:3] for b in bade}), 'exhaustive', 0, 'skoolkit.tape.parse_tzx / parse_pzx / get_edges (turbo, pure-data and PZX forms of one block)', n=ne)
+    rep.exhaustive.append({'domain': 'used bits 1..8 x pause {0, 1000 ms} x 3 data lengths: TZX 0x11 == TZX 0x12+0x13+0x14 == PZX PULS+DATA (edges and data-block ranges)', 'size': ne, 'visited': ne, 'complete': True})
+    if bade:
+        b = bade[0]
+        rep.violation('C11/format-equivalence/%s' % str(b[3]).replace(' ', '-'), 'used bits %d, pause %d, %d data bytes: %s: %s vs %s' % (b[0], b[1], b[2], b[3], b[4] if len(b) > 4 else '', b[5] if len(b) > 5 else ''),
+                      {'case': {'format_equivalence': [b[0], b[1], b[2]]}, 'observed_vs_expected': [list(map(str, x)) for x in bade[:4]]})
     nf, badf = flag_consistency()
     rep.add_bulk(nf - len(badf), 'exhaustive', 0, 'skoolkit.tape._get_tape_block_timings / write_pzx / get_edges (pilot length per flag byte)', n=nf)
     rep.exhaustive.append({'domain': 'flag bytes 0..255: TAP, TZX 0x10 and written-PZX forms of the same block give the same edges up to the end of the data', 'size': nf, 'visited': nf, 'complete': True})
@@ -616,6 +665,13 @@ def replay(path):
         doc = json.load(f)
     case = doc.get('case')
     print('replaying', doc.get('key'), case)
+    if isinstance(case, dict) and 'format_equivalence' in case:
+        n_, bad = format_equivalence()
+        print(bad[:2])
+        if bad:
+            print('VIOLATION property=C11 replay=%s' % path)
+            return 1
+        return 0
     if isinstance(case, dict) and 'second_block_timings' in case:
         n_, bad = block_independence()
         print(bad[:2])
